@@ -193,6 +193,15 @@ func cmdCheck(args []string) int {
 		return toolError("no obligations generated for %s (vacuity guard)", *prop)
 	}
 	sv := newSolver(filepath.Join(verifDir, "out", "smt", *prop), *tier, seed)
+	knownPre := loadKnown()
+	for _, o := range all {
+		for _, k := range knownPre.Findings {
+			if k.Property == *prop && k.Obligation == o.Name && k.Status != "fixed" {
+				o.quickOnly = true // a listed finding is re-checked with a short budget only
+				o.noSplit = true
+			}
+		}
+	}
 	sv.solveAll(all, runtime.NumCPU())
 	// aggregate
 	agg := map[string]*aggOblig{}
@@ -422,7 +431,7 @@ func writeReplay(w *World, prop string, a *aggOblig) replayInfo {
 		"path_blocks": o.Trace, "model_inputs": model, "model_kind": modelKind, "goal_smt": o.Goal,
 	}
 	confirmed := false
-	if len(model) > 0 {
+	if _, err := os.Stat(filepath.Join(verifDir, "replay", "adapters", sanitize(a.Func)+".go.tmpl")); len(model) > 0 || err == nil {
 		if res := tryReplay(w, prop, a, model); res != nil {
 			rec["replay"] = res
 			if c, ok := res["confirmed"].(bool); ok && c {
